@@ -51,6 +51,40 @@ PROPS["C14"] = {
     "assumptions": ["only forward clock steps", "over-capacity scenario spans < 5 simulated minutes with periods >= 1 min (no real expiry interferes)"],
 }
 
+CB_NOTE = ("trusted: simrt, instrumenter, frozen clock, rapid; the breaker state is observed through its public String() after every scheduler step; "
+           "transitions into tripped are taken from observation (whether the condition held is C18's business), every other transition and every pass/refuse decision is predicted by the reference model")
+PROPS["C05"] = {
+    "harness": "cbsim", "test": "TestC05", "quick_s": 30, "thorough_s": 900, "batch": 50,
+    "rule": "one evaluation = one simulated run of the real CircuitBreaker: drawn condition, fallback/recovery/check durations (1ms-10min), 5-120 operations (arrive, burst, complete with scripted status, "
+            "clock advance around the configured durations incl. exactly at period ends, fine-mode scheduler steps); requests overlap in the handler across trips; oracle = reference state machine replayed over "
+            "the decisions in critical-section order; non-trivial = the breaker tripped at least once and a request was in the handler; distinct = run digest",
+    "technique": "deterministic simulation: seeded schedules, scripted response histories and clock advances against the real breaker; reference state-machine replay over decisions ordered by critical section (shield interval, standby pass-through, legal-edge monitor)",
+    "level_text": "seeded search over response histories, clock advances, configurations and (fine mode) lock-granularity interleavings; sampled, not exhaustive; failures minimised and replayable",
+    "level_note": CB_NOTE,
+    "assumptions": ["only forward clock steps", "decisions exactly on the end of the fallback period are accepted either way (statement leaves the boundary open)"],
+}
+PROPS["C12"] = {
+    "harness": "cbsim", "test": "TestC12", "quick_s": 30, "thorough_s": 900, "batch": 50,
+    "rule": "same simulation as C05 with recovery-heavy arrival patterns (bursts at one instant, trickles, idle gaps, arrivals at drawn points of the ramp incl. its start and end); oracle = exact integer ramp inequality "
+            "2(P+1)D < elapsed(N+1) per decision, recovery exit to standby, shield after a re-trip from recovering; non-trivial = at least two ramp decisions; distinct = run digest",
+    "technique": "deterministic simulation: seeded arrival patterns over a simulated clock during recovery; exact-integer ramp inequality per decision in critical-section order against the reference model",
+    "level_text": "seeded search over arrival patterns, recovery durations, outcome sequences and interleavings; sampled, not exhaustive",
+    "level_note": CB_NOTE + "; recovery is taken to begin at the first request decided at or after the end of the fallback period",
+    "assumptions": ["only forward clock steps", "equality (within 1e-9 relative) of the ramp inequality accepts both outcomes", "a decision exactly at the end of the recovery period may follow the ramp or exit to standby"],
+}
+
+PROPS["C18"] = {
+    "harness": "cbsim", "test": "TestC18", "quick_s": 30, "thorough_s": 900, "batch": 50,
+    "rule": "one evaluation = one simulated run of the real CircuitBreaker with a condition generated from the grammar (three metric functions, six comparisons, &&/|| nesting to depth 3, with and without parentheses), "
+            "drawn fallback/recovery/check durations, 5-100 operations (requests with scripted status and latency = simulated time in the handler, overlapping completions, clock advances); oracle = own three-valued evaluator "
+            "over the responses recorded since the last trip at every evaluation point (first completion strictly after previous evaluation + check period) plus exact side-effect counts at quiescence; "
+            "non-trivial = at least one definite evaluation and one trip; distinct = run digest",
+    "technique": "deterministic simulation: generated condition programs and scripted response histories on a simulated clock; independent three-valued (Kleene) evaluator as reference, side-effect tasks scheduled by the simulator and counted at quiescence",
+    "level_text": "seeded search over condition expressions, response/latency histories, check periods and overlapping completions; unknown oracle answers are counted as inconclusive, never reported; sampled, not exhaustive",
+    "level_note": CB_NOTE + "; the condition oracle runs in coarse mode (Record+check of one completion atomic); window handling: responses younger than half the public counter window are certainly counted, older than the window certainly not, in-between every cut-off is tried; latency atoms are unknown when any response is older than half the window; quantiles accept every rank convention with a 3% band",
+    "assumptions": ["only forward clock steps", "a completion exactly on the check-period boundary ends condition checking for that run (counted as truncated)"],
+}
+
 PENDING = "check not built yet in this session (planned, see DESIGN.md section 4); not claimed until its harness exists"
 NOT_APPLICABLE = {pid: PENDING for pid in ["C%02d" % i for i in range(1, 21)]}
 NOT_APPLICABLE["C19"] = ("pure function of one request's RemoteAddr/Host/header to a token: no schedule, clock, fault, I/O or multi-party behaviour for a "
